@@ -1,5 +1,6 @@
-\* 2 instances, counts 0..3, two outputs: exhaustive interleavings
-CONSTANTS NI = 2  Counts = {0, 1, 2, 3}  Outs = {"o1", "o2"}  Scatter = TRUE
+\* every interleaving, one instance (plain loop), counts 0..3, two outputs.  The driver generates the
+\* other configurations (NI, Counts, Outs, Scatter, Eager) from this template.
+CONSTANTS NI = 1  Counts = {0, 1, 2, 3}  Outs = {"o1", "o2"}  Scatter = FALSE  Eager = FALSE
 INIT Init
 NEXT Next
 VIEW View
